@@ -2,6 +2,7 @@ package main
 
 import (
 	"fmt"
+	"go/constant"
 	"go/token"
 	"go/types"
 
@@ -16,7 +17,8 @@ func init() {
 			"R-C01-2: writer and reader agree on the frame grammar: the set of type predicates under which no length field is read/written is {IsHeartbeat} on both sides; both refuse the encrypted flag; the writer gzips exactly when the written type byte carries the compressed flag and the reader inflates exactly then; the length written is len() of the very slice written as body. " +
 			"R-C01-3: the body reader returns exactly the accumulated prefix of a buffer whose length is the declared size (cannot consume bytes of the next packet). " +
 			"R-C01-5: a buffer taken from the buffer pool and given back (Release, also deferred) in a function is never part of what that function returns (a decoded body must not alias memory the next read overwrites). " +
-			"R-C01-4: message-oriented transports adapted to io.Reader buffer the unread remainder of a message and serve it before reading the next message. " +
+			"R-C01-6: every size rejection on the read path (declared wire length, inflated length) refuses exactly the sizes above MaxPacketBodySize, so a body of exactly the maximum decodes. " +
+			"R-C01-4: message-oriented transports adapted to io.Reader buffer the unread remainder of a message and serve it before reading the next message, and serving advances the remainder by exactly the copied count. " +
 			"Decides these structural necessary conditions; does not decide byte equality through gzip or the behaviour of third-party transports.",
 		Run: runC01,
 		Mutants: []Mutant{
@@ -82,6 +84,61 @@ func typePredFacts(b *ssa.BasicBlock) map[string]bool {
 		}
 	}
 	return out
+}
+
+// typePredFactsX: typePredFacts plus the facts established by same-package helpers whose
+// success dominates b (a check moved into `decodeBody(t, data) (x, err)` still guards the
+// caller's success return): for every call c of a helper h with ErrOK(b, c), the predicates
+// that hold at every success return of h are imported.
+func typePredFactsX(b *ssa.BasicBlock, depth int) map[string]bool {
+	out := typePredFacts(b)
+	if depth <= 0 || b == nil {
+		return out
+	}
+	fn := b.Parent()
+	Instrs(fn, func(in ssa.Instruction) {
+		ci, ok := in.(ssa.CallInstruction)
+		if !ok {
+			return
+		}
+		h := ci.Common().StaticCallee()
+		if h == nil || h.Pkg == nil || h.Pkg != fn.Pkg || len(h.Blocks) == 0 || h == fn {
+			return
+		}
+		if !ErrOK(b, ci) {
+			return
+		}
+		for k, v := range succTypeFacts(h, depth-1) {
+			if _, dup := out[k]; !dup {
+				out[k] = v
+			}
+		}
+	})
+	return out
+}
+
+// succTypeFacts: packet.Type predicate facts common to every success return of h.
+func succTypeFacts(h *ssa.Function, depth int) map[string]bool {
+	var common map[string]bool
+	for _, ret := range Returns(h) {
+		if RetErrKind(ret) != "nil" {
+			continue
+		}
+		f := typePredFactsX(ret.Block(), depth)
+		if common == nil {
+			common = f
+			continue
+		}
+		for k, v := range common {
+			if w, ok := f[k]; !ok || w != v {
+				delete(common, k)
+			}
+		}
+	}
+	if common == nil {
+		common = map[string]bool{}
+	}
+	return common
 }
 
 func runC01(r *Report) {
@@ -161,9 +218,9 @@ func runC01(r *Report) {
 			f := typePredFacts(ret.Block())
 			r.Ob("R-C01-2", ret.Pos(), f["IsHeartbeat"], "success return without a length read must be under IsHeartbeat()==true", "ReadPacket", "return-without-length")
 		} else {
-			f := typePredFacts(ret.Block())
+			f := typePredFactsX(ret.Block(), 2)
 			enc, has := f["IsEncrypted"]
-			r.Ob("R-C01-2", ret.Pos(), has && !enc, "success return after the body read must be under IsEncrypted()==false", "ReadPacket", "encrypted-rejected")
+			r.Ob("R-C01-2", ret.Pos(), has && !enc, "success return after the body read must be under IsEncrypted()==false (directly or through a helper whose every success return is)", "ReadPacket", "encrypted-rejected")
 		}
 	}
 	// the body size argument is the decoded length
@@ -172,10 +229,18 @@ func runC01(r *Report) {
 	} else {
 		r.Pass("R-C01-2", CallPos(bodyCall), "body read sized by the decoded length field", "ReadPacket", "body-sized-by-length")
 	}
-	// inflate exactly when the compressed flag is set
-	dec := Calls(readPacket, false, "StreamProcessor.decompressData")
+	// inflate exactly when the compressed flag is set (in ReadPacket or in the helper it
+	// hands the body to)
+	var dec []ssa.CallInstruction
+	var decFn *ssa.Function
+	for _, g := range samePkgReach(readPacket, 2) {
+		for _, d := range Calls(g, false, "StreamProcessor.decompressData") {
+			dec = append(dec, d)
+			decFn = g
+		}
+	}
 	if len(dec) != 1 {
-		r.Fail("R-C01-2", readPacket.Pos(), "expected one decompress call in ReadPacket", "ReadPacket", "inflate-iff-flag")
+		r.Fail("R-C01-2", readPacket.Pos(), fmt.Sprintf("expected one decompress call reachable from ReadPacket, found %d", len(dec)), "ReadPacket", "inflate-iff-flag")
 	} else {
 		f := typePredFacts(dec[0].Block())
 		ok := f["IsCompressed"]
@@ -199,6 +264,23 @@ func runC01(r *Report) {
 					if len(hits) > 0 {
 						ok = false
 					}
+				}
+			}
+		}
+		if decFn != readPacket {
+			// the helper decides: every success return of ReadPacket after the body read must have passed it
+			for _, ret := range Returns(readPacket) {
+				if RetErrKind(ret) != "nil" || ReachesWithout(readPacket, ret, func(in ssa.Instruction) bool { return in == bodyCall.(ssa.Instruction) }) {
+					continue
+				}
+				passed := false
+				Instrs(readPacket, func(in ssa.Instruction) {
+					if hc, isC := in.(ssa.CallInstruction); isC && hc.Common().StaticCallee() == decFn && ErrOK(ret.Block(), hc) {
+						passed = true
+					}
+				})
+				if !passed {
+					ok = false
 				}
 			}
 		}
@@ -368,6 +450,24 @@ func runC01(r *Report) {
 		r.Floor("R-C01-3", 2, "body accumulate loop and result slice")
 	}
 
+	// ---- R-C01-6 size limits accept exactly the bodies the format allows ------------
+	// Every size rejection on the read path (wire length, inflated length) must reject from
+	// MaxPacketBodySize+1 upwards: a body of exactly the maximum, which the writer accepts,
+	// must decode; an inflate limit below the smallest rejected size would truncate silently.
+	if cp := r.P.ByPath[Module+"/internal/constants"]; cp != nil {
+		if mc, _ := cp.Types.Scope().Lookup("MaxPacketBodySize").(*types.Const); mc != nil {
+			maxBody, _ := constant.Int64Val(mc.Val())
+			for _, g := range samePkgReach(readPacket, 3) {
+				for _, sr := range sizeRejections(g, maxBody) {
+					r.Ob("R-C01-6", sr.pos, sr.smallest == maxBody+1,
+						fmt.Sprintf("size rejection `%s` refuses sizes from %d upwards (want %d: bodies up to and including MaxPacketBodySize=%d are valid packets)", sr.text, sr.smallest, maxBody+1, maxBody),
+						r.P.FuncName(g), "rejects-above-max:"+sr.what)
+				}
+			}
+			r.Floor("R-C01-6", 2, "size rejections on the read path (wire length, inflated length)")
+		}
+	}
+
 	// ---- R-C01-5 decoded data never aliases a released pool buffer ------------
 	for _, g := range r.P.FuncsIn(pkg) {
 		for _, al := range Calls(g, false, "BufferManager.Allocate") {
@@ -504,6 +604,38 @@ func checkMsgAdapter(r *Report, f *ssa.Function, rm ssa.CallInstruction) {
 		}
 	}
 	r.Ob("R-C01-4", CallPos(rm), served, "the next message is read only when the remainder buffer is empty (buffered bytes are served first, in order)", fn, "remainder-served-first")
+	// serving the remainder consumes exactly what was copied out: every store of a re-slice of the
+	// remainder field back into that field is field[n:] with n the result of copy(p, field)
+	if kept {
+		isFieldLoad := func(v ssa.Value) bool {
+			u, ok := stripValue(v).(*ssa.UnOp)
+			if !ok || u.Op != token.MUL {
+				return false
+			}
+			_, fld, _, ok := FieldOf(u.X)
+			return ok && fld == bufField
+		}
+		Instrs(f, func(in ssa.Instruction) {
+			st, ok := in.(*ssa.Store)
+			if !ok {
+				return
+			}
+			if _, fld, _, ok := FieldOf(st.Addr); !ok || fld != bufField {
+				return
+			}
+			sl, ok := stripValue(st.Val).(*ssa.Slice)
+			if !ok || !isFieldLoad(sl.X) {
+				return
+			}
+			good := false
+			if c, ok := stripValue(sl.Low).(*ssa.Call); ok && sl.High == nil {
+				if b, ok := c.Call.Value.(*ssa.Builtin); ok && b.Name() == "copy" && isFieldLoad(c.Call.Args[1]) {
+					good = true
+				}
+			}
+			r.Ob("R-C01-4", st.Pos(), good, "serving buffered bytes advances the remainder by exactly the copied count (field = field[n:], n = copy(p, field)): anything else re-delivers bytes or drops the tail", fn, "remainder-advanced-by-copied")
+		})
+	}
 	_ = types.Typ
 }
 
@@ -584,4 +716,64 @@ func checkPoolOwnership(r *Report, f *ssa.Function, alloc ssa.CallInstruction) {
 		}
 	}
 	r.Ob("R-C01-5", CallPos(alloc), bad == "", map[bool]string{true: "pooled buffer is either copied out before Release or handed over without Release", false: bad + ": the next packet read overwrites the bytes the caller still holds"}[bad == ""], fn, "pool-buffer-ownership")
+}
+
+type sizeRejection struct {
+	pos      token.Pos
+	smallest int64
+	text     string
+	what     string
+}
+
+// sizeRejections finds comparisons of a size with a constant near maxBody whose true edge
+// can only return an error, and computes the smallest size each one refuses.
+func sizeRejections(g *ssa.Function, maxBody int64) []sizeRejection {
+	var out []sizeRejection
+	Instrs(g, func(in ssa.Instruction) {
+		bo, ok := in.(*ssa.BinOp)
+		if !ok || bo.Referrers() == nil {
+			return
+		}
+		k, isC := ConstInt(bo.Y)
+		if !isC || k < maxBody-4096 || k > maxBody+4096 {
+			return
+		}
+		var smallest int64
+		switch bo.Op {
+		case token.GTR:
+			smallest = k + 1
+		case token.GEQ:
+			smallest = k
+		default:
+			return
+		}
+		for _, u := range *bo.Referrers() {
+			iff, ok := u.(*ssa.If)
+			if !ok {
+				continue
+			}
+			ok2 := WalkFrom(iff.Block().Succs[0], nil, func(in ssa.Instruction) int {
+				if ret, isR := in.(*ssa.Return); isR {
+					if RetErrKind(ret) == "nil" {
+						return Hit
+					}
+					return Stop
+				}
+				return Cont
+			}, nil)
+			if len(ok2) > 0 {
+				continue // not a rejection (e.g. a capacity clamp)
+			}
+			what := "wire-length"
+			if c, _ := CallOfValue(bo.X); c != nil && CalleeOf(c).Is("io:Copy", "io:CopyBuffer", "bytes:Buffer.ReadFrom") {
+				what = "inflated-length"
+			} else if lc, ok := stripValue(bo.X).(*ssa.Call); ok {
+				if b, ok := lc.Call.Value.(*ssa.Builtin); ok && b.Name() == "len" {
+					what = "length-of-buffer"
+				}
+			}
+			out = append(out, sizeRejection{bo.Pos(), smallest, fmt.Sprintf("%s %s %d", originSummary(bo.X), bo.Op, k), what})
+		}
+	})
+	return out
 }
